@@ -52,6 +52,9 @@ def run_one(sid, tier, seeds):
         out["demo_without"] = d0.returncode
         ap = sh(["git", "apply", "--whitespace=nowarn", os.path.join(sdir, "patch.diff")], scratch)
         if ap.returncode != 0:
+            # later repairs of /repo may have shifted the context of an older seeded patch: retry with less context
+            ap = sh(["git", "apply", "-C1", "--whitespace=nowarn", os.path.join(sdir, "patch.diff")], scratch)
+        if ap.returncode != 0:
             out["status"] = "PATCH-DOES-NOT-APPLY"
             out["detail"] = ap.stderr.strip()[-300:]
             return out
